@@ -122,6 +122,9 @@ pub struct NScenario {
     pub reserves: Vec<(u64, u64)>,
     pub targets: Vec<TRef>,
     pub bystanders: Vec<usize>,
+    /// (function index, destination function index): the function's code is `jmp destination`
+    #[serde(default)]
+    pub forwards: Vec<(usize, usize)>,
     pub lifetimes: Vec<NLifetime>,
     pub classes: Vec<String>,
 }
@@ -201,6 +204,23 @@ pub fn generate(profile: &str, seed: u64, index: u64) -> NScenario {
         // slots never overlap
         while funcs.iter().any(|(a, _)| (*a as i64 - next as i64).abs() < 16) {
             next += 16;
+        }
+    }
+    // some synthetic targets are tail-call forwarders to a bystander
+    let mut forwards: Vec<(usize, usize)> = Vec::new();
+    if !bystanders.is_empty() {
+        for t in targets.iter() {
+            if rng.chance(1, 6) {
+                let dest = *rng.pick(&bystanders);
+                // rel32 must reach (same arena: always)
+                forwards.push((t.idx, dest));
+            }
+        }
+        for (f, d) in &forwards {
+            funcs[*f].1 = funcs[*d].1;
+        }
+        if !forwards.is_empty() {
+            classes.push("forwarder-target".into());
         }
     }
     let with_real = matches!(profile, "C02" | "C03" | "C12" | "C17") && rng.chance(1, 2) || (profile == "C01" && rng.chance(1, 5));
@@ -378,9 +398,9 @@ pub fn generate(profile: &str, seed: u64, index: u64) -> NScenario {
             let kind = if tr.ret == "bool" {
                 *rng.pick(&["boolean", "boolean", "raw", "unchecked"])
             } else if tr.kind == "real" {
-                *rng.pick(&["raw", "checked", "unchecked", "closure", "fakemacro", "realfn"])
+                *rng.pick(&["raw", "checked", "unchecked", "closure", "fakemacro", "realfn", "fakecounted"])
             } else {
-                *rng.pick(&["raw", "checked", "unchecked", "raw", "closure", "realfn"])
+                *rng.pick(&["raw", "checked", "unchecked", "raw", "closure", "realfn", "fakecounted"])
             };
             let fake = *rng.pick(&fake_ids);
             let fault = if profile == "C11" && rng.chance(1, 6) {
@@ -422,6 +442,7 @@ pub fn generate(profile: &str, seed: u64, index: u64) -> NScenario {
         reserves,
         targets,
         bystanders,
+        forwards,
         lifetimes,
         classes,
     }
@@ -453,6 +474,7 @@ struct Run<'a> {
     events: u64,
     anon_before: Vec<(u64, u64)>,
     orphans: Vec<(u64, u64)>,
+    pending_expectation: bool,
 }
 
 fn mixd(h: u64, v: u64) -> u64 {
@@ -730,6 +752,8 @@ impl<'a> Run<'a> {
                 "boolean" => inj.when_called(target_ptr).will_return_boolean(op.value),
                 "closure" => inj.when_called(target_ptr).will_execute_raw(injectorpp::closure!(|| 2002, fn() -> u32)),
                 "fakemacro" => inj.when_called(target_ptr).will_execute(injectorpp::fake!(func_type: fn() -> u32, returns: 2003)),
+                // an expectation that is never met: the verifier panics at scope exit
+                "fakecounted" => inj.when_called(target_ptr).will_execute(injectorpp::fake!(func_type: fn() -> u32, returns: 2004, times: 1_000_000)),
                 "realfn" => inj.when_called(target_ptr).will_execute_raw(if op.value { injectorpp::func!(fn (real_f0)() -> u32) } else { injectorpp::func!(fn (real_f1)() -> u32) }),
                 k => panic!("harness: unknown kind {k}"),
             }
@@ -744,10 +768,14 @@ impl<'a> Run<'a> {
         }
         interpose::set_faults(Faults::default());
         let ledger = interpose::ledger_since(mark);
+        if op.kind == "fakecounted" {
+            self.pending_expectation = true;
+        }
         match op.kind.as_str() {
             "boolean" => val = Inst::Bool(op.value),
             "closure" => val = Inst::Val(2002),
             "fakemacro" => val = Inst::Val(2003),
+            "fakecounted" => val = Inst::Val(2004),
             "realfn" => val = Inst::Val(if op.value { 2000 } else { 2001 }),
             _ => {}
         }
@@ -826,6 +854,11 @@ pub fn setup_memory(sc: &NScenario) -> Result<(), String> {
     for (a, id) in &sc.funcs {
         arena::write_const_fn(*a, *id);
     }
+    for (f, d) in &sc.forwards {
+        if let (Some((fa, _)), Some((da, _))) = (sc.funcs.get(*f), sc.funcs.get(*d)) {
+            arena::write_jmp_fn(*fa, *da);
+        }
+    }
     for (b, p) in &sc.arenas {
         arena::seal_rx(*b, p * PS);
     }
@@ -861,6 +894,7 @@ pub fn execute(sc: &NScenario, sh: &Shared) -> Value {
         events: 0,
         anon_before: anon_pages(&[]),
         orphans: Vec::new(),
+        pending_expectation: false,
     };
     // sanity: originals answer before anything happens
     for t in 0..sc.targets.len() {
@@ -870,6 +904,7 @@ pub fn execute(sc: &NScenario, sh: &Shared) -> Value {
         for n in run.named.iter_mut() {
             *n = false;
         }
+        run.pending_expectation = false;
         let mut inj_holder: Option<InjectorPP> = None;
         let r = catch_unwind(AssertUnwindSafe(|| {
             inj_holder = Some(InjectorPP::new());
@@ -902,9 +937,20 @@ pub fn execute(sc: &NScenario, sh: &Shared) -> Value {
         if lt.exit_panic {
             *run.faults.entry("injected_panic_at_scope_exit".into()).or_insert(0) += 1;
         }
-        if let Err(p) = r {
-            if !p.is::<Injected>() {
-                run.v("drop-panicked", &["C02", "C05"], format!("lifetime {li}: scope exit raised {:?}", panic_msg(&p)));
+        match &r {
+            Err(p) if p.is::<Injected>() => {}
+            Err(p) => {
+                let msg = panic_msg(p);
+                if run.pending_expectation && !lt.exit_panic && msg.contains("expected to be called") {
+                    *run.faults.entry("verification_panic_at_scope_exit".into()).or_insert(0) += 1;
+                } else {
+                    run.v("drop-panicked", &["C02", "C05"], format!("lifetime {li}: scope exit raised {:?}", msg));
+                }
+            }
+            Ok(()) => {
+                if run.pending_expectation && !lt.exit_panic {
+                    run.v("unsatisfied-expectation-not-reported", &["C06"], format!("lifetime {li}: a fake with times: 1000000 was installed, yet scope exit did not panic"));
+                }
             }
         }
         for m in run.model.iter_mut() {
